@@ -389,11 +389,7 @@ def r4_run_layer(ctx, rep, R='C01.R4'):
               'tear_down_unneeded is not given exactly the gathered base closure of the layer '
               '(gathered=%s needed=%s)' % (gres, norm(needed) if needed is not None else None),
               key='run_layer:needed', func=fi.qualname, where=ctx.where(fi, ucall))
-    same_map = dotted(arg(ucall, 2, 'setup_layers')) == dotted(arg(scall, 2, 'setup_layers')) \
-        and dotted(arg(scall, 2, 'setup_layers')) in ps
-    rep.check(same_map, R, 'tear-down and set-up use the same bookkeeping map',
-              'tear_down_unneeded and setup_layer are given different maps',
-              key='run_layer:map', func=fi.qualname, where=ctx.where(fi, scall))
+    map_chain(ctx, rep, R)
     exc_succ = [d for d, k in g.succ[S[0]] if k == 'exc']
     rexc = g.reach(exc_succ, include_start=True)
     rep.check(X[0] not in rexc, R, 'no test runs after a failed set-up',
@@ -401,6 +397,42 @@ def r4_run_layer(ctx, rep, R='C01.R4'):
               key='run-after-failed-setup', func=fi.qualname, where=ctx.where(fi, scall),
               path=g.describe_path(g.path(exc_succ, X[0], include_start=True) or []))
     rep.floor(R, 4, 4, 'call sites')
+
+
+def map_chain(ctx, rep, R):
+    """the map in which setup_layer records a layer is the caller's own map all the way up: a layer
+    that came up is known to every later tear-down (also when a layer above it failed)"""
+    fi = ctx.model.func('runner.run_layer')
+    ps = params(fi)
+    ucall = [c for c in own_calls(fi.node) if call_name(c) == 'tear_down_unneeded']
+    scall = [c for c in own_calls(fi.node) if call_name(c) == 'setup_layer']
+    same_map = len(ucall) == 1 and len(scall) == 1 and \
+        dotted(arg(ucall[0], 2, 'setup_layers')) == dotted(arg(scall[0], 2, 'setup_layers')) \
+        and dotted(arg(scall[0], 2, 'setup_layers')) in ps
+    if same_map:
+        # the parameter is not rebound before the calls (a copy would hide layers that came up)
+        mp = dotted(arg(scall[0], 2, 'setup_layers'))
+        same_map = mp not in local_assignments(fi.node)
+    rep.check(same_map, R, 'tear-down and set-up use the same bookkeeping map',
+              'tear_down_unneeded and setup_layer are given different maps (or a copy): a layer that '
+              'came up before a layer above it failed is not known to the later tear-downs',
+              key='run_layer:map', func=fi.qualname,
+              where=ctx.where(fi, scall[0] if scall else fi.node))
+    fs = ctx.model.func('runner.setup_layer')
+    sp = params(fs)
+    rec = [c for c in own_calls(fs.node) if call_name(c) == 'setup_layer']
+    marks = [n for n in ast.walk(fs.node) if isinstance(n, ast.Assign) and any(
+        isinstance(t, ast.Subscript) for t in n.targets)]
+    mp = None
+    for n in marks:
+        for t in n.targets:
+            if isinstance(t, ast.Subscript) and dotted(t.value) in sp:
+                mp = dotted(t.value)
+    okr = mp is not None and mp not in local_assignments(fs.node) and \
+        all(dotted(arg(c, 2, 'setup_layers')) == mp for c in rec)
+    rep.check(okr, R, 'setup_layer records in its own map parameter and passes it to the recursive calls',
+              'setup_layer marks layers in a map that is not the one it was given',
+              key='setup_layer:map', func=fs.qualname, where=ctx.where(fs, fs.node))
 
 
 def _covers_all(v, gres):
